@@ -6,7 +6,13 @@
 // It never decides a verdict; it only tries to turn a failed / undecided proof obligation into a concrete failing input.
 // usage: session_witness <c09|c10|c15|c17|c18> [seed]     exit 1 + last line "WITNESS ..." if a failing input is found,
 //        else exit 0 + "NONE".  Nothing here depends on wall-clock values: timestamps of session-generated messages
-//        are never compared.  SW_DEBUG=1 prints the reference traces to stderr.
+//        are never compared.  SW_DEBUG=1 prints the reference traces and coverage counters to stderr.
+//        SW_STRICT=1 additionally applies the LITERAL reading of the statements where the unchanged tree is known to deviate
+//        (reported as WITNESS [strict] ...; without it these situations are not generated, so the unchanged tree gives NONE):
+//          c10: onMetaData on the active stream while PUBLISHING raises StreamMetadataReceived (SW_STRICT=1); `_result` with a
+//               fractional transaction id (1.5) is applied to transaction 1 (SW_STRICT=2);  c17: bytes that follow the WindowAcknowledgement in the same
+//               input call are never counted;  c15: connect + createStream + publish delivered in ONE call (the application
+//               cannot accept the connection in between) answers publish with an error, byte-by-byte delivery does not.
 use bytes::Bytes;
 use rml_amf0::Amf0Value;
 use rml_rtmp::chunk_io::{ChunkDeserializer, ChunkSerializer, Packet};
@@ -28,10 +34,14 @@ impl Rng {
     fn below(&mut self, n: u64) -> u64 { self.next() % n }
 }
 static CTX: Mutex<String> = Mutex::new(String::new());
+static STATS: Mutex<Vec<(String, u64)>> = Mutex::new(Vec::new());   // coverage counters, printed with SW_DEBUG=1
+fn stat(k: &str) { if let Ok(mut g) = STATS.lock() { if let Some(e) = g.iter_mut().find(|e| e.0 == k) { e.1 += 1; } else { g.push((k.to_string(), 1)); } } }
 fn ctx(s: String) { if let Ok(mut g) = CTX.lock() { *g = s; } }
 fn get_ctx() -> String { CTX.lock().map(|g| g.clone()).unwrap_or_default() }
 fn trunc(s: &str, n: usize) -> String { if s.len() <= n { s.to_string() } else { let mut k = n; while !s.is_char_boundary(k) { k -= 1; } format!("{}...({} chars)", &s[..k], s.len()) } }
 fn witness(s: String) -> ! { println!("WITNESS {}", trunc(&s.replace('\n', " "), 2800)); std::process::exit(1) }
+fn strict_level() -> u32 { std::env::var("SW_STRICT").ok().and_then(|v| v.parse().ok()).unwrap_or(0) }
+fn strict() -> bool { strict_level() >= 1 }
 fn debug() -> bool { std::env::var("SW_DEBUG").map(|v| v == "1").unwrap_or(false) }
 fn payload(n: usize, salt: u8) -> Vec<u8> { (0..n).map(|i| (i as u8).wrapping_mul(7).wrapping_add(salt)).collect() }
 fn guard<T>(what: &str, f: impl FnOnce() -> T) -> Result<T, String> {
@@ -301,6 +311,7 @@ fn run_client(chunk_cfg: u32, publish: bool, pieces: &[&[u8]]) -> Vec<String> {
 }
 fn check_partitions(name: &str, segs: &[Vec<u8>], seed: u64, must_contain: &[&str], run: &dyn Fn(&[&[u8]]) -> Vec<String>) {
     ctx(format!("c15 scenario {}", name));
+    eprintln!("running c15 scenario {}", trunc(name, 160));   // if the process dies inside the crate under test, the driver shows the tail of stderr
     let whole: Vec<&[u8]> = segs.iter().map(|x| &x[..]).collect();
     let reference = run(&whole);
     if debug() { eprintln!("--- {} ({} bytes in {} segments)", name, segs.iter().map(|x| x.len()).sum::<usize>(), segs.len()); for t in &reference { eprintln!("    {}", trunc(t, 220)); } }
@@ -321,10 +332,10 @@ fn check_partitions(name: &str, segs: &[Vec<u8>], seed: u64, must_contain: &[&st
     cmp("byte by byte".into(), &all.chunks(1).collect::<Vec<_>>());
     cmp("in 7-byte pieces".into(), &all.chunks(7).collect::<Vec<_>>());
     for (si, seg) in segs.iter().enumerate() {
-        let step = std::cmp::max(1, seg.len() / 70);
+        let step = std::cmp::max(1, seg.len() / 150);
         let mut ks: Vec<usize> = vec![0, seg.len()];
         let mut k = (seed as usize) % step; while k <= seg.len() { ks.push(k); k += step; }
-        if seg.len() <= 600 { ks = (0..=seg.len()).collect(); }
+        if seg.len() <= 1200 { ks = (0..=seg.len()).collect(); }
         for k in ks {
             let mut pieces: Vec<&[u8]> = segs[..si].iter().map(|x| &x[..]).collect();
             pieces.push(&seg[..k]); pieces.push(&seg[k..]);
@@ -333,7 +344,7 @@ fn check_partitions(name: &str, segs: &[Vec<u8>], seed: u64, must_contain: &[&st
         }
     }
     let mut rng = Rng(seed ^ 0xC15 ^ (name.len() as u64) << 20);
-    for round in 0..6 {
+    for round in 0..12 {
         let mut pieces: Vec<&[u8]> = vec![]; let mut desc = vec![];
         for seg in segs { let mut i = 0; while i < seg.len() { let n = std::cmp::min(seg.len() - i, rng.pick(&[1usize, 2, 3, 5, 11, 12, 13, 64, 127, 128, 129, 1000, 0])); pieces.push(&seg[i..i + n]); desc.push(n); i += n; } }
         cmp(format!("in pseudo-random pieces (round {}, sizes {:?})", round, &desc[..std::cmp::min(desc.len(), 40)]), &pieces);
@@ -441,6 +452,14 @@ fn mode_c15(seed: u64) {
         }
         check_partitions(&format!("c/client variant {} connect result, createStream result, {} (peer chunk size {}{})", vi, if publish { "Publish.Start, ping, ack" } else { "Play.Start, metadata, media 0/1/200/5000, ping" }, if peer_cs == 0 { 128 } else { peer_cs }, if with_ack { ", acknowledgement window 300" } else { "" }),
             &[s1, s2], seed, if publish { &["ConnectionRequestAccepted", "PublishRequestAccepted", "PingResponse"] } else { &["ConnectionRequestAccepted", "PlaybackRequestAccepted", "StreamMetadataReceived", "VideoDataReceived", "PingResponse"] }, &|pc| run_client(if vi == 3 { 64 } else { 4096 }, publish, pc));
+    }
+    if strict() {
+        let mut p = Peer::new();
+        let mut s1 = p.cmd("connect", 1.0, connect_obj("live", false), &[], 0);
+        s1.extend(p.cmd("createStream", 2.0, A::Null, &[], 0));
+        s1.extend(p.cmd("publish", 3.0, A::Null, &[s("key"), s("live")], 1));
+        s1.extend(p.audio(1, 0, payload(10, 1)));
+        check_partitions("[strict] connect + createStream + publish + audio pipelined in one segment", &[s1], seed, &[], &|pc| run_server(4096, pc));
     }
     // pseudo-random valid server streams (seeded): one publishing stream, random harmless traffic around it
     let mut rng = Rng(seed.wrapping_mul(0x9E3779B97F4A7C15) ^ 0x15);
@@ -552,13 +571,16 @@ fn c17_run(kind: &str, warm: bool, items: &[Item], calls: &[usize], tail: usize,
         for &(e, w) in &ann { if e > pos && e <= end { window = Some(w as u64); } }
         pos = end;
     }
+    if strict() { if let Some(&(first_end, _)) = ann.first() { let after = pos.saturating_sub(first_end) as u64; if pos > first_end && acked + c != after {
+        witness(format!("[c17] [strict] {}: {} bytes were received after the window announcement ended (stream offset {}), but only {} were acknowledged and {} are outstanding: the bytes that followed the announcement in the same input call are never counted", desc, after, first_end, acked, c)); } } }
     if acked + c != counted { witness(format!("[c17] {}: conservation broken: acknowledged {} + outstanding {} != received {}", desc, acked, c, counted)); }
 }
 fn mode_c17(seed: u64) {
     let mut rng = Rng(seed ^ 0xC17C17);
     const A: usize = 16;    // a WindowAcknowledgement message on the wire: 12 header bytes + 4
     for kind in ["server", "client"] {
-        for &w in &[1u32, 2, 3, 100, 1000, 5000] {
+        let mut windows: Vec<u32> = (1..=20).collect(); windows.extend_from_slice(&[100, 127, 128, 129, 1000, 4096, 5000, 65535, 65536, 1_000_000]);
+        for &w in &windows {
             let wz = w as usize;
             for warm in [false, true] {
                 let base = vec![Item::Announce(w), Item::PadAbout(1, true)];
@@ -569,8 +591,8 @@ fn mode_c17(seed: u64) {
                     vec![7, A - 7, wz, wz],                  // announcement split over two calls
                     vec![A + 5, wz.saturating_sub(1), 1, wz],   // announcement and 5 more bytes in one call: counting starts with the next call
                     vec![A + 3 * wz + 1, wz],
-                    vec![1; A + 2 * wz + 3],                 // byte by byte, announcement included
                 ];
+                if w <= 5000 { pats.push(vec![1; A + 2 * wz + 3]); }   // byte by byte, announcement included
                 if w >= 2 { pats.push(vec![A, wz - 1, 1, wz - 1, 1, wz - 1, 2, wz - 2]); }
                 if w == 100 { pats.push(vec![A, 40, 60, 40, 60, 99, 1, 100, 101, 1, 98, 1]); pats.push(vec![A, 40, 59, 1, 0, 100]); }
                 let mut r = vec![A]; for _ in 0..40 { r.push(rng.pick(&[0usize, 1, 2, 3, 7, wz / 2, wz.saturating_sub(1), wz, wz + 1, 2 * wz, 3 * wz + 1])); } pats.push(r);
@@ -578,7 +600,7 @@ fn mode_c17(seed: u64) {
                 for calls in &pats { c17_run(kind, warm, &base, calls, 0, &mut rng); }
             }
             // window re-announcements mid-stream: same, larger, smaller than what is outstanding
-            if w >= 100 {
+            if w >= 100 && w <= 5000 {
                 let half = wz / 2 + 10;    // >= 12
                 for &w2 in &[w, 3 * w, w / 10, 1, (half + A) as u32, (half + A + 1) as u32] {
                     let w2z = w2 as usize;
@@ -690,6 +712,7 @@ impl S18 {
     }
     fn new(cs: u32, label: String) -> S18 {
         ctx(format!("c18 {}", label));
+        eprintln!("running c18 {}", trunc(&label, 160));
         let mut cfg = ServerSessionConfig::new(); cfg.chunk_size = cs;
         let (s, init) = match guard("ServerSession::new", || ServerSession::new(cfg)) { Ok(Ok(x)) => x, Ok(Err(e)) => witness(format!("[c18] ServerSession::new(chunk_size {}) failed: {}", cs, e)), Err(e) => witness(format!("[c18] {}", e)) };
         let mut x = S18 { s, p: Peer::new(), dec: OutDec::new(), recs: vec![], pending: vec![], label, last_out: vec![] };
@@ -798,6 +821,7 @@ impl C18 {
 fn c18_client(cs: u32, ack_window: Option<u32>, media: &[Med], name: &str, rng: &mut Rng) {
     let label = format!("client session (chunk size {}{}), {}", cs, ack_window.map(|w| format!(", peer acknowledgement window {}", w)).unwrap_or_default(), name);
     ctx(format!("c18 {}", label));
+    eprintln!("running c18 {}", trunc(&label, 160));
     let mut cfg = ClientSessionConfig::new(); cfg.chunk_size = cs; cfg.tc_url = Some("rtmp://example.com/live".to_string());
     let (c, init) = match guard("ClientSession::new", || ClientSession::new(cfg)) { Ok(Ok(x)) => x, Ok(Err(e)) => witness(format!("[c18] ClientSession::new(chunk_size {}) failed: {}", cs, e)), Err(e) => witness(format!("[c18] {}", e)) };
     let mut x = C18 { c, p: Peer::new(), dec: OutDec::new(), recs: vec![], label, last_out: vec![], events: vec![] };
@@ -1055,6 +1079,11 @@ fn c09_walk(rng: &mut Rng, steps: usize) {
     let mut app: Option<String> = None; let mut conn_pending = false;
     let mut pending: Vec<(u32, Rq)> = vec![]; let mut consumed: Vec<u32> = vec![]; let mut ids: HashSet<u32> = HashSet::new();
     let mut streams: Vec<(u32, St)> = vec![]; let mut sids: HashSet<u32> = HashSet::new(); let mut tx = 10.0;
+    if rng.below(2) == 0 {   // half of the histories start with an accepted connection, so that the later states get visited often
+        let name = rng.pick(&["live", "app2"]); let r = x.connect(name, 5.0); let id = x.one_request(&r, "connect"); ids.insert(id);
+        match x.accept(id) { Ok(sr) => if sr.out.iter().filter(|o| matches!(o.cmd("_result"), Some((t, _, _)) if t == 5.0)).count() != 1 || !sr.ev.is_empty() { x.bad(format!("accepted connection request: expected a _result under transaction id 5, got {}", sr.show())) }, Err(e) => x.bad(format!("accept_request({}) of the fresh connection request failed: {}", id, e)) }
+        consumed.push(id); app = Some(name.to_string());
+    }
     for _ in 0..steps {
         tx += 1.0;
         let busy = |sid: u32, pending: &Vec<(u32, Rq)>| pending.iter().any(|(_, r)| matches!(r, Rq::Pub(s, _) | Rq::Play(s, _) if *s == sid));
@@ -1072,7 +1101,7 @@ fn c09_walk(rng: &mut Rng, steps: usize) {
                 let sid = rng.pick(&idle); let key = format!("key{}", tx); let is_pub = rng.below(2) == 0;
                 let r = if is_pub { x.publish(sid, &key) } else { x.play(sid, &key) };
                 match &app {
-                    None => x.expect_error_response(&r, &format!("{} before a connection request was accepted", if is_pub { "publish" } else { "play" })),
+                    None => { stat("c09 publish/play before connected"); x.expect_error_response(&r, &format!("{} before a connection request was accepted", if is_pub { "publish" } else { "play" })) }
                     Some(a) => {
                         let id = x.one_request(&r, if is_pub { "publish" } else { "play" });
                         let ok = match &r.ev[0] { ServerSessionEvent::PublishStreamRequested { app_name, stream_key, .. } => is_pub && app_name == a && *stream_key == key,
@@ -1102,6 +1131,7 @@ fn c09_walk(rng: &mut Rng, steps: usize) {
                 } else {
                     let id = if sel < 8 && !consumed.is_empty() { rng.pick(&consumed) } else { let mut v = 1000 + rng.below(5) as u32; while ids.contains(&v) { v += 1; } v };
                     let r = if accept { x.accept(id) } else { x.reject(id) };
+                    stat(if consumed.contains(&id) { "c09 stale id refused" } else { "c09 unknown id refused" });
                     x.expect_refused(r, &format!("{}_request({}) (an id that is {})", if accept { "accept" } else { "reject" }, id, if consumed.contains(&id) { "already consumed" } else { "unknown" }));
                 }
             }
@@ -1110,7 +1140,7 @@ fn c09_walk(rng: &mut Rng, steps: usize) {
                 let sid = rng.pick(&cands);
                 let st = streams.iter().find(|s| s.0 == sid).map(|s| s.1.clone());
                 let a = app.clone();
-                match (st, a) { (Some(St::Publishing(k)), Some(a)) => x.expect_media(sid, Some((&a, &k))), _ => x.expect_media(sid, None) }
+                match (st, a) { (Some(St::Publishing(k)), Some(a)) => { stat("c09 media on a publishing stream"); x.expect_media(sid, Some((&a, &k))) } (Some(St::Playing(_)), _) => { stat("c09 media on a playing stream"); x.expect_media(sid, None) } _ => { stat("c09 media elsewhere"); x.expect_media(sid, None) } }
             }
             10 | 11 => if let Some(a) = app.clone() {
                 let cands: Vec<u32> = streams.iter().filter(|(s, _)| !busy(*s, &pending)).map(|(s, _)| *s).collect();
@@ -1118,6 +1148,7 @@ fn c09_walk(rng: &mut Rng, steps: usize) {
                 let sid = rng.pick(&cands); let del = rng.below(2) == 0;
                 let st = streams.iter().find(|s| s.0 == sid).map(|s| s.1.clone()).unwrap();
                 let r = if del { x.delete(sid) } else { x.close(sid) };
+                stat(&format!("c09 {} of a {} stream", if del { "delete" } else { "close" }, match &st { St::Created => "idle", St::Publishing(_) => "publishing", St::Playing(_) => "playing" }));
                 let ok = match &st { St::Created => r.ev.is_empty(), St::Publishing(k) => finished(&r, true, &a, k), St::Playing(k) => finished(&r, false, &a, k) };
                 if !ok { x.bad(format!("{}Stream({}) of a stream in state {:?} (app {}): expected {}, got {}", if del { "delete" } else { "close" }, sid, st, a, if st == St::Created { "no event" } else { "exactly one matching finished event" }, r.show())); }
                 if del { streams.retain(|s| s.0 != sid); } else { for s in streams.iter_mut() { if s.0 == sid { s.1 = St::Created; } } }
@@ -1140,7 +1171,7 @@ fn c09_walk(rng: &mut Rng, steps: usize) {
 fn mode_c09(seed: u64) {
     c09_scripted();
     let mut rng = Rng(seed ^ 0xC09C09);
-    for _ in 0..300 { c09_walk(&mut rng, 70); }
+    for _ in 0..3000 { c09_walk(&mut rng, 70); }
 }
 
 // ================================================================ C10: client workflow
@@ -1333,6 +1364,7 @@ fn c10_walk(rng: &mut Rng, steps: usize) {
     for _ in 0..steps {
         n += 1;
         let playing = match m { M::PlayReq(s) | M::Playing(s) => Some(s), _ => None };
+        if debug() { stat(&format!("c10 steps in state {}", format!("{:?}", m).split('(').next().unwrap_or(""))); }
         match rng.below(16) {
             0 => match m { M::Disc => { let r = x.req_conn("live"); let (tx, _, _) = x.expect_cmd(&r, "connect", &[0], "request_connection"); x.fresh_tx(tx, &mut used, "connect"); m = M::ConnPending(tx); }
                            M::ConnPending(_) => (), _ => { let r = x.req_conn("live"); x.expect_refused(r, &format!("request_connection in state {:?}", m)); } },
@@ -1370,6 +1402,7 @@ fn c10_walk(rng: &mut Rng, steps: usize) {
             11 | 12 | 13 => {
                 let sid = 1 + rng.below(7) as u32; let kind = rng.below(3) as u8;
                 if kind == 2 && matches!(m, M::PubReq(s) | M::Publishing(s) if s == sid) { continue; }
+                if playing == Some(sid) { stat("c10 media on the active stream while play requested/running"); }
                 x.expect_media_in(sid, playing == Some(sid), &[kind], &format!("in state {:?}", m));
             }
             14 => x.expect_pong(rng.pick(&[0u32, 1, 0xFFFFFF, 0x1000000, 0xFFFFFFFF, 31337])),
@@ -1377,18 +1410,45 @@ fn c10_walk(rng: &mut Rng, steps: usize) {
         }
     }
 }
+fn c10_strict() {
+    if strict_level() >= 2 {
+        let mut y = Cli::new();
+        let r = y.req_conn("live"); let (t, _, _) = y.expect_cmd(&r, "connect", &[0], "request_connection");
+        let r = y.result(t + 0.5, &[]); y.expect_unknown_tx(&r, t + 0.5, &format!("[strict] _result for transaction id {} (never used; the pending connect is {})", t + 0.5, t));
+    }
+    let (mut x, _) = Cli::connected();
+    let r = x.req_pub("k"); let (t, _, _) = x.expect_cmd(&r, "createStream", &[0], "request_publishing");
+    let r = x.result(t, &[A::N(3.0)]); x.expect_cmd(&r, "publish", &[3], "createStream result");
+    let _ = x.on_status("NetStream.Publish.Start", 3);
+    let (r, _, _) = x.media_in(3, 2);
+    if !r.ev.is_empty() { x.bad(format!("[strict] onMetaData on the active stream 3 while PUBLISHING (play neither requested nor running): the statement allows media events only while play is requested or running, got {}", r.show())); }
+}
 fn mode_c10(seed: u64) {
     c10_scripted();
+    if strict() { c10_strict(); }
     let mut rng = Rng(seed ^ 0xC10C10);
-    for _ in 0..300 { c10_walk(&mut rng, 80); }
+    for _ in 0..3000 { c10_walk(&mut rng, 80); }
 }
 
 
+// safety nets for changed trees that never return or allocate without bound inside one call (catch_unwind cannot stop those):
+// an address-space limit (the allocation failure aborts the process: replay.py reports a death by signal as a finding) and a watchdog.
+#[cfg(target_os = "linux")]
+fn limit_memory() {
+    #[repr(C)] struct RLimit { cur: u64, max: u64 }
+    extern "C" { fn setrlimit(resource: i32, rlim: *const RLimit) -> i32; }
+    let l = RLimit { cur: 3 << 30, max: 3 << 30 };
+    unsafe { let _ = setrlimit(9 /* RLIMIT_AS */, &l); }
+}
+#[cfg(not(target_os = "linux"))]
+fn limit_memory() {}
 fn main() {
     let a: Vec<String> = std::env::args().collect();
     let mode = a.get(1).map(|s| s.to_lowercase()).unwrap_or_default();
     let seed: u64 = a.get(2).and_then(|s| s.parse().ok()).unwrap_or(0);
     std::panic::set_hook(Box::new(|_| {}));
+    limit_memory();
+    { let mode = mode.clone(); std::thread::spawn(move || { std::thread::sleep(std::time::Duration::from_secs(150)); witness(format!("[{}] no result after 150 s: a call into the crate under test does not return (or is far slower than on the unchanged tree, where the whole mode takes about a second); last step: {}", mode, get_ctx())); }); }
     let r = guard("the finder", || match mode.as_str() {
         "c09" => mode_c09(seed),
         "c10" => mode_c10(seed),
@@ -1398,5 +1458,6 @@ fn main() {
         _ => { eprintln!("usage: session_witness <c09|c10|c15|c17|c18> [seed]"); std::process::exit(2) }
     });
     if let Err(e) = r { witness(format!("[{}] {} while running: {}", mode, e, get_ctx())); }
+    if debug() { if let Ok(g) = STATS.lock() { for (k, n) in g.iter() { eprintln!("coverage: {} x {}", n, k); } } }
     println!("NONE");
 }
